@@ -193,6 +193,9 @@ func checkC02(r *Report, p *Program) {
 	// revisions of another parent type are never claimed: written type labels = required type labels (shared with C09)
 	revisionLabelsAgree(r, p, "R02.9")
 	namespaceScopingTable(r, p, "R02.10")
+	matchIsSelectorOnly(r, p, "R02.11")
+	// an adoption that reports success has written the controller reference (shared with C03/C04)
+	adoptAlwaysWrites(r, p, "R02.12")
 	// an in-place update is conditional on the observed resourceVersion: system metadata reverted to the observed values (shared with C05)
 	r05_4(r, p)
 }
